@@ -34,14 +34,14 @@ func (r *RAT[K, V]) Find(k K, predicate func(V) bool) (V, bool) {
 	}
 
 	for i := idx; i >= 0; i-- {
-		v := r.values[k][idx]
+		v := r.values[k][i]
 		if predicate(v) {
 			return v, true
 		}
 	}
 
 	for i := r.length - 1; i > idx; i-- {
-		v := r.values[k][idx]
+		v := r.values[k][i]
 		if predicate(v) {
 			return v, true
 		}
